@@ -16,10 +16,15 @@ import (
 	"golang.org/x/tools/go/ssa"
 )
 
-const (
-	verifDir   = "/verif"
-	modulePath = "berty.tech/weshnet/v2"
-)
+const modulePath = "berty.tech/weshnet/v2"
+
+// verifDir is /verif unless WV_VERIF_DIR is set (scratch copies used while developing rules).
+var verifDir = func() string {
+	if d := os.Getenv("WV_VERIF_DIR"); d != "" {
+		return d
+	}
+	return "/verif"
+}()
 
 type Verdict string
 
